@@ -276,6 +276,9 @@ def check(ctx, rep):
     from .c03 import rule_no_content_cache
 
     rule_no_content_cache(ctx, rep)
+    from .c10 import rule_accumulate_all
+
+    rule_accumulate_all(ctx, rep)
     rep.not_covered += [
         "semgrep_prefilter_results is computed once before any rewrite and gates each later detector run: whether one codemod's "
         "rewrite can enable another's rule needs semgrep semantics (declined; no enabling pair could be constructed)",
